@@ -1,16 +1,36 @@
-// C29 harness: MergedLocRIB under add/remove/drop histories with duplicates.
-// Input tokens:  a<src>:<route> | r<src>:<route> | d<src>
+// C29 harness: MergedLocRIB under add/remove/drop histories with duplicates, driven either directly
+// or through the real RIS client glue (risclient.serviceLoop on scripted ObserveRIB streams).
+//
+// Input tokens:  via=direct|ris  then  a<src>:<route> | r<src>:<route> | d<src>
+//   via=direct: AddRoute / RemoveRoute / DropAllBySrc are called on the MergedLocRIB with source "src-<n>"
+//   via=ris:    source n is a risclient.RISClient (own *grpc.ClientConn) attached to the MergedLocRIB;
+//               a/r = a RIBUpdate delivered on the client's current ObserveRIB stream (a new stream is
+//               opened when the client has none: reconnect), d = the stream fails (source lost)
 // Observation (one token per op):  <id>x<count>,...|-  / uniqueRouteCount / routesWithSingleSource
+//   <count> = how many paths of the Loc-RIB route for the pool route's prefix are exactly (Path.Compare,
+//   every attribute) the pool route's path - selection-equal paths of other pool routes do not count
+//
+// Route pool (ids): 0-3 static IPv4 (two prefixes x two next hops); 4-9 BGP routes for ONE prefix that
+// differ in exactly one attribute best-path selection ignores (communities, AS path content, large
+// communities, unknown attribute, cluster list content): pairwise distinct hashes, Path.Equal to each
+// other; 10-11 BGP for the same prefix, selection-distinct; 12-13 static IPv6; 14-15 BGP IPv6
+// (selection-equal pair).
 package main
 
 import (
+	"errors"
 	"fmt"
 	"os"
 	"sort"
 	"strconv"
 	"strings"
+	"time"
 
+	"google.golang.org/grpc"
+
+	risapi "github.com/bio-routing/bio-rd/cmd/ris/api"
 	bnet "github.com/bio-routing/bio-rd/net"
+	"github.com/bio-routing/bio-rd/risclient"
 	"github.com/bio-routing/bio-rd/route"
 	routeapi "github.com/bio-routing/bio-rd/route/api"
 	"github.com/bio-routing/bio-rd/routingtable/locRIB"
@@ -19,22 +39,101 @@ import (
 	"verifharness/hx"
 )
 
-const nRoutes = 6
+const nRoutes = 16
 const nSrcs = 3
 
-// route pool: ids 0..5; 0/1 and 2/3 share a prefix and differ in next hop
-func poolPfx(id int) *bnet.Prefix {
-	return bnet.NewPfx(bnet.IPv4FromOctets(10, byte(id/2), 0, 0), 16).Ptr()
-}
-func poolNH(id int) *bnet.IP { return bnet.IPv4FromOctets(1, 1, 1, byte(1+id%2)).Ptr() }
-func poolRoute(id int) *routeapi.Route {
-	return &routeapi.Route{
-		Pfx: poolPfx(id).ToProto(),
-		Paths: []*routeapi.Path{{
-			Type:       routeapi.Path_Static,
-			StaticPath: &routeapi.StaticPath{NextHop: poolNH(id).ToProto()},
-		}},
+func bgpRoute(pfx bnet.Prefix, nh, src bnet.IP, mod func(*routeapi.BGPPath)) *routeapi.Route {
+	b := &routeapi.BGPPath{
+		NextHop:       nh.ToProto(),
+		Source:        src.ToProto(),
+		LocalPref:     100,
+		AsPath:        []*routeapi.ASPathSegment{{AsSequence: true, Asns: []uint32{65001, 65002, 65003}}},
+		Origin:        0,
+		Med:           10,
+		Ebgp:          true,
+		BgpIdentifier: 0x0a000001,
+		Communities:   []uint32{65001<<16 | 100},
+		ClusterList:   []uint32{1, 2},
 	}
+	if mod != nil {
+		mod(b)
+	}
+	return &routeapi.Route{Pfx: pfx.ToProto(), Paths: []*routeapi.Path{{Type: routeapi.Path_BGP, BgpPath: b}}}
+}
+
+func staticRoute(pfx bnet.Prefix, nh bnet.IP) *routeapi.Route {
+	return &routeapi.Route{Pfx: pfx.ToProto(), Paths: []*routeapi.Path{{Type: routeapi.Path_Static,
+		StaticPath: &routeapi.StaticPath{NextHop: nh.ToProto()}}}}
+}
+
+func buildPool() []*routeapi.Route {
+	p4 := func(o byte) bnet.Prefix { return bnet.NewPfx(bnet.IPv4FromOctets(10, o, 0, 0), 16) }
+	nh4 := func(o byte) bnet.IP { return bnet.IPv4FromOctets(1, 1, 1, o) }
+	bp := p4(2)
+	v6 := func(b3 uint16) bnet.Prefix { return bnet.NewPfx(bnet.IPv6FromBlocks(0x2001, 0xdb8, b3, 0, 0, 0, 0, 0), 48) }
+	nh6 := func(o uint16) bnet.IP { return bnet.IPv6FromBlocks(0x2001, 0xdb8, 0xffff, 0, 0, 0, 0, o) }
+	pool := []*routeapi.Route{
+		staticRoute(p4(0), nh4(1)), staticRoute(p4(0), nh4(2)),
+		staticRoute(p4(1), nh4(1)), staticRoute(p4(1), nh4(2)),
+		// selection-equal, hash-distinct, Compare-distinct
+		bgpRoute(bp, nh4(1), nh4(9), nil),
+		bgpRoute(bp, nh4(1), nh4(9), func(b *routeapi.BGPPath) { b.Communities = []uint32{65001<<16 | 200} }),
+		bgpRoute(bp, nh4(1), nh4(9), func(b *routeapi.BGPPath) { b.AsPath[0].Asns = []uint32{65001, 65009, 65003} }),
+		bgpRoute(bp, nh4(1), nh4(9), func(b *routeapi.BGPPath) {
+			b.LargeCommunities = []*routeapi.LargeCommunity{{GlobalAdministrator: 65001, DataPart1: 1, DataPart2: 2}}
+		}),
+		bgpRoute(bp, nh4(1), nh4(9), func(b *routeapi.BGPPath) {
+			b.UnknownAttributes = []*routeapi.UnknownPathAttribute{{Optional: true, Transitive: true, TypeCode: 200, Value: []byte{1, 2}}}
+		}),
+		bgpRoute(bp, nh4(1), nh4(9), func(b *routeapi.BGPPath) { b.ClusterList = []uint32{1, 3} }),
+		// selection-distinct
+		bgpRoute(bp, nh4(1), nh4(9), func(b *routeapi.BGPPath) { b.LocalPref = 200 }),
+		bgpRoute(bp, nh4(2), nh4(8), nil),
+		// IPv6
+		staticRoute(v6(1), nh6(1)), staticRoute(v6(1), nh6(2)),
+		bgpRoute(v6(2), nh6(1), nh6(9), nil),
+		bgpRoute(v6(2), nh6(1), nh6(9), func(b *routeapi.BGPPath) { b.Communities = nil }),
+	}
+	if len(pool) != nRoutes {
+		panic("pool size")
+	}
+	return pool
+}
+
+var pool = buildPool()
+
+// the exact path and the prefix of every pool route, as the merged table installs them
+var poolPath []*route.Path
+var poolPfx []*bnet.Prefix
+
+func init() {
+	for _, ar := range pool {
+		r := route.RouteFromProtoRoute(ar, false)
+		poolPath = append(poolPath, r.Paths()[0])
+		poolPfx = append(poolPfx, r.Prefix())
+	}
+}
+
+// poolSanity: the pool has the shape the rule promises (checked once per run)
+func poolSanity() string {
+	for i := 0; i < nRoutes; i++ {
+		for j := i + 1; j < nRoutes; j++ {
+			if *poolPfx[i] == *poolPfx[j] && poolPath[i].Compare(poolPath[j]) {
+				return fmt.Sprintf("pool routes %d and %d have Compare-equal paths", i, j)
+			}
+		}
+	}
+	for i := 4; i <= 9; i++ {
+		for j := i + 1; j <= 9; j++ {
+			if !poolPath[i].Equal(poolPath[j]) {
+				return fmt.Sprintf("pool routes %d and %d are not selection-equal", i, j)
+			}
+		}
+	}
+	if poolPath[4].Equal(poolPath[10]) || poolPath[4].Equal(poolPath[11]) || !poolPath[14].Equal(poolPath[15]) {
+		return "selection-distinct / IPv6 pool routes do not have the intended relation"
+	}
+	return ""
 }
 
 type op struct {
@@ -42,15 +141,28 @@ type op struct {
 	s, r int
 }
 
-func parseOps(in string) ([]op, error) {
-	var ops []op
+type hcase struct {
+	via string
+	ops []op
+}
+
+func parseCase(in string) (*hcase, error) {
+	c := &hcase{via: "direct"}
 	for _, t := range strings.Fields(in) {
+		if strings.HasPrefix(t, "via=") {
+			c.via = t[4:]
+			if c.via != "direct" && c.via != "ris" {
+				return nil, fmt.Errorf("bad token %q", t)
+			}
+			continue
+		}
 		o := op{kind: t[0]}
 		body := t[1:]
 		var err error
-		if o.kind == 'd' {
+		switch o.kind {
+		case 'd':
 			o.s, err = strconv.Atoi(body)
-		} else {
+		case 'a', 'r':
 			p := strings.SplitN(body, ":", 2)
 			if len(p) != 2 {
 				return nil, fmt.Errorf("bad token %q", t)
@@ -59,13 +171,18 @@ func parseOps(in string) ([]op, error) {
 			if err == nil {
 				o.r, err = strconv.Atoi(p[1])
 			}
+			if err == nil && (o.r < 0 || o.r >= nRoutes) {
+				err = fmt.Errorf("route id out of the pool in %q", t)
+			}
+		default:
+			err = fmt.Errorf("bad token %q", t)
 		}
 		if err != nil {
 			return nil, err
 		}
-		ops = append(ops, o)
+		c.ops = append(c.ops, o)
 	}
-	return ops, nil
+	return c, nil
 }
 
 func fmtOps(ops []op) string {
@@ -80,22 +197,136 @@ func fmtOps(ops []op) string {
 	return strings.Join(b, " ")
 }
 
+func (c *hcase) String() string { return "via=" + c.via + " " + fmtOps(c.ops) }
+
+// ---- the two ways of driving the merged table
+
+type driver interface {
+	add(s, r int)
+	remove(s, r int)
+	drop(s int)
+	close()
+}
+
 // sources are distinct comparable values, as the RIS client passes (pointers there, strings here)
-func srcVal(s int) interface{} { return fmt.Sprintf("src-%d", s) }
+type directDriver struct{ m *mergedlocrib.MergedLocRIB }
+
+func srcVal(s int) interface{}           { return fmt.Sprintf("src-%d", s) }
+func (d *directDriver) add(s, r int)     { d.m.AddRoute(srcVal(s), pool[r]) }
+func (d *directDriver) remove(s, r int)  { d.m.RemoveRoute(srcVal(s), pool[r]) }
+func (d *directDriver) drop(s int)       { d.m.DropAllBySrc(srcVal(s)) }
+func (d *directDriver) close()           {}
+
+// fakeStream is a scripted ObserveRIB stream. Recv first reports that the client is waiting (everything
+// delivered before has been processed), then blocks for the next update; nil = the stream fails.
+type fakeStream struct {
+	grpc.ClientStream
+	idle chan struct{}
+	in   chan *risapi.RIBUpdate
+	done chan struct{}
+	fail chan struct{} // closed when the service loop panicked
+	err  interface{}
+}
+
+func (s *fakeStream) Recv() (*risapi.RIBUpdate, error) {
+	s.idle <- struct{}{}
+	u := <-s.in
+	if u == nil {
+		return nil, errors.New("transport is closing")
+	}
+	return u, nil
+}
+
+func (s *fakeStream) wait(ch chan struct{}, what string) {
+	select {
+	case <-ch:
+	case <-s.fail:
+		panic(fmt.Sprint("RIS client service loop panicked: ", s.err))
+	case <-time.After(10 * time.Second):
+		panic("timeout: RIS client did not " + what)
+	}
+}
+
+type risDriver struct {
+	clients []*risclient.RISClient
+	streams []*fakeStream
+}
+
+func newRISDriver(m *mergedlocrib.MergedLocRIB, n int) *risDriver {
+	d := &risDriver{streams: make([]*fakeStream, n)}
+	for i := 0; i < n; i++ {
+		d.clients = append(d.clients, risclient.New(&risclient.Request{Router: "r"}, &grpc.ClientConn{}, m))
+	}
+	return d
+}
+
+// session returns the running stream of client s, connecting it if necessary
+func (d *risDriver) session(s int) *fakeStream {
+	if st := d.streams[s]; st != nil {
+		return st
+	}
+	st := &fakeStream{idle: make(chan struct{}), in: make(chan *risapi.RIBUpdate), done: make(chan struct{}), fail: make(chan struct{})}
+	d.streams[s] = st
+	go func() {
+		if panicked, val := hx.Guard(func() { risclient.VerifC29ServiceLoop(d.clients[s], st) }); panicked {
+			st.err = val
+			close(st.fail)
+			return
+		}
+		close(st.done)
+	}()
+	st.wait(st.idle, "call Recv")
+	return st
+}
+func (d *risDriver) deliver(s int, u *risapi.RIBUpdate) {
+	st := d.session(s)
+	select {
+	case st.in <- u:
+	case <-st.fail:
+		panic(fmt.Sprint("RIS client service loop panicked: ", st.err))
+	}
+	st.wait(st.idle, "come back to Recv")
+}
+func (d *risDriver) add(s, r int)    { d.deliver(s, &risapi.RIBUpdate{Advertisement: true, Route: pool[r]}) }
+func (d *risDriver) remove(s, r int) { d.deliver(s, &risapi.RIBUpdate{Advertisement: false, Route: pool[r]}) }
+func (d *risDriver) drop(s int) {
+	st := d.session(s)
+	d.streams[s] = nil
+	st.in <- nil
+	st.wait(st.done, "leave the service loop")
+}
+func (d *risDriver) close() {
+	for s, st := range d.streams {
+		if st != nil {
+			d.drop(s)
+		}
+	}
+}
 
 // runCase executes the ops on the implementation; returns observation string, spec-violation (sig, detail)
-func runCase(ops []op) (obs string, sig string, detail string, nontrivial bool) {
+func runCase(c *hcase) (obs string, sig string, detail string, nontrivial bool) {
 	lr := locRIB.New("merged")
 	m := mergedlocrib.New(lr)
+	var drv driver = &directDriver{m}
+	if c.via == "ris" {
+		rd := newRISDriver(m, nSrcs+2)
+		defer rd.close()
+		drv = rd
+	}
 	adv := map[[2]int]bool{}
 	var out []string
-	for i, o := range ops {
+	for i, o := range c.ops {
 		switch o.kind {
 		case 'a':
 			if adv[[2]int{o.s, o.r}] {
 				nontrivial = true // repeated advertisement
 			}
-			m.AddRoute(srcVal(o.s), poolRoute(o.r))
+			for k := range adv {
+				if k[1] != o.r && *poolPfx[k[1]] == *poolPfx[o.r] && poolPath[k[1]].Equal(poolPath[o.r]) {
+					nontrivial = true // a selection-equal other route of the prefix is installed
+				}
+			}
+			drv.add(o.s, o.r)
 			adv[[2]int{o.s, o.r}] = true
 		case 'r':
 			n := 0
@@ -107,7 +338,7 @@ func runCase(ops []op) (obs string, sig string, detail string, nontrivial bool) 
 			if n >= 2 {
 				nontrivial = true // withdrawal of a route that has several sources
 			}
-			m.RemoveRoute(srcVal(o.s), poolRoute(o.r))
+			drv.remove(o.s, o.r)
 			delete(adv, [2]int{o.s, o.r})
 		case 'd':
 			for k := range adv {
@@ -116,16 +347,15 @@ func runCase(ops []op) (obs string, sig string, detail string, nontrivial bool) 
 					delete(adv, k)
 				}
 			}
-			m.DropAllBySrc(srcVal(o.s))
+			drv.drop(o.s)
 		}
 		// observe the Loc-RIB below the merged table
 		var present []string
 		for id := 0; id < nRoutes; id++ {
 			cnt := 0
-			if r := lr.Get(poolPfx(id)); r != nil {
-				want := &route.Path{Type: route.StaticPathType, StaticPath: &route.StaticPath{NextHop: poolNH(id)}}
+			if r := lr.Get(poolPfx[id]); r != nil {
 				for _, p := range r.Paths() {
-					if p.Type == route.StaticPathType && p.StaticPath != nil && p.StaticPath.NextHop.Compare(want.StaticPath.NextHop) == 0 {
+					if p.Compare(poolPath[id]) {
 						cnt++
 					}
 				}
@@ -146,11 +376,11 @@ func runCase(ops []op) (obs string, sig string, detail string, nontrivial bool) 
 				} else {
 					sig = "route-absent-although-advertised"
 				}
-				detail = fmt.Sprintf("after op %d (%s): route %d present=%d advertised=%v", i, fmtOps(ops[i:i+1]), id, cnt, should)
+				detail = fmt.Sprintf("via=%s after op %d (%s): route %d present=%d advertised=%v", c.via, i, fmtOps(c.ops[i:i+1]), id, cnt, should)
 			}
 			if sig == "" && cnt > 1 {
 				sig = "route-installed-more-than-once"
-				detail = fmt.Sprintf("after op %d: route %d installed %d times", i, id, cnt)
+				detail = fmt.Sprintf("via=%s after op %d: route %d installed %d times", c.via, i, id, cnt)
 			}
 		}
 		sort.Strings(present)
@@ -164,60 +394,94 @@ func runCase(ops []op) (obs string, sig string, detail string, nontrivial bool) 
 	return strings.Join(out, " "), sig, detail, nontrivial
 }
 
-func gen(r *hx.RNG, t *hx.Trace) []op {
+// themes: which pool routes a history plays with
+var themes = [][]int{
+	{0, 1, 2, 3},                   // static, two prefixes
+	{4, 5, 6, 7, 8, 9},             // one prefix, selection-equal BGP routes
+	{4, 5, 6, 7, 8, 9, 10, 11},     // the same plus selection-distinct ones
+	{12, 13, 14, 15},               // IPv6
+	{0, 1, 4, 5, 10, 11},           // static and BGP, several prefixes (one address family per Loc-RIB)
+}
+
+func gen(r *hx.RNG, t *hx.Trace) *hcase {
+	c := &hcase{via: "direct"}
+	if r.Chance(40) {
+		c.via = "ris"
+	}
+	t.Count("via_" + c.via)
 	n := 3 + r.Intn(22)
-	nr := 2 + r.Intn(nRoutes-1)
+	th := r.Intn(len(themes))
+	t.Count(fmt.Sprintf("theme_%d", th))
+	ids := append([]int(nil), themes[th]...)
+	for i := len(ids) - 1; i > 0; i-- {
+		j := r.Intn(i + 1)
+		ids[i], ids[j] = ids[j], ids[i]
+	}
+	nr := 2 + r.Intn(4)
+	if nr > len(ids) {
+		nr = len(ids)
+	}
+	ids = ids[:nr]
 	ns := 1 + r.Intn(nSrcs)
-	var ops []op
 	for i := 0; i < n; i++ {
-		c := r.Intn(100)
+		k := r.Intn(100)
 		switch {
-		case c < 55:
-			ops = append(ops, op{'a', r.Intn(ns), r.Intn(nr)})
+		case k < 55:
+			c.ops = append(c.ops, op{'a', r.Intn(ns), ids[r.Intn(nr)]})
 			t.Count("op_add")
-		case c < 90:
-			ops = append(ops, op{'r', r.Intn(ns), r.Intn(nr)})
+		case k < 90:
+			c.ops = append(c.ops, op{'r', r.Intn(ns), ids[r.Intn(nr)]})
 			t.Count("op_remove")
 		default:
-			ops = append(ops, op{'d', r.Intn(ns), 0})
+			c.ops = append(c.ops, op{'d', r.Intn(ns), 0})
 			t.Count("op_drop")
 		}
 	}
 	t.Count(fmt.Sprintf("len_%02d-%02d", n/5*5, n/5*5+4))
-	return ops
+	return c
 }
 
 func main() {
 	cfg := hx.Parse()
 	tr := hx.NewTrace(cfg.Out)
 	nviol := 0
-	do := func(id string, ops []op) {
+	if msg := poolSanity(); msg != "" {
+		fmt.Println("HARNESS-ERROR route pool:", msg)
+	}
+	do := func(id string, c *hcase) {
 		var obs, sig, detail string
 		var nt bool
-		panicked, val := hx.Guard(func() { obs, sig, detail, nt = runCase(ops) })
+		panicked, val := hx.Guard(func() { obs, sig, detail, nt = runCase(c) })
 		if panicked {
 			obs, sig, detail = "PANIC", "panic", fmt.Sprint(val)
 		}
-		tr.Case(id, nt, fmtOps(ops), obs)
+		tr.Case(id, nt, c.String(), obs)
 		if sig != "" {
 			hx.Violation(id, sig, detail)
 			nviol++
 		}
 	}
 	if cfg.Mode == "replay" {
-		for _, c := range hx.InputsFrom(cfg.Replay) {
-			ops, err := parseOps(c[1])
+		for _, cl := range hx.InputsFrom(cfg.Replay) {
+			c, err := parseCase(cl[1])
 			if err != nil {
 				fmt.Println("HARNESS-ERROR bad replay input:", err)
 				os.Exit(2)
 			}
-			do(c[0], ops)
+			do(cl[0], c)
 		}
 	} else {
-		for _, c := range hx.InputsFrom(hx.CorpusFiles(cfg.Corpus)...) {
-			if ops, err := parseOps(c[1]); err == nil {
-				do("corpus-"+c[0], ops)
+		for _, cl := range hx.InputsFrom(hx.CorpusFiles(cfg.Corpus)...) {
+			if c, err := parseCase(cl[1]); err == nil {
+				// every corpus history is run both ways
+				for _, via := range []string{"direct", "ris"} {
+					c2 := *c
+					c2.via = via
+					do("corpus-"+cl[0]+"-"+via, &c2)
+				}
 				tr.Count("corpus")
+			} else {
+				fmt.Println("HARNESS-ERROR bad corpus line:", cl[0], err)
 			}
 		}
 		rng := hx.NewRNG(cfg.Seed)
